@@ -52,8 +52,8 @@ func funcs() []gen.Func {
 		}
 		return out
 	}
-	if world.Thorough() {
-		return all
+	if world.Thorough() || os.Getenv("VERIF_C02_SUBSET") == "" {
+		return all // every Updater type in both tiers (the quick subset is kept for development)
 	}
 	var out []gen.Func
 	for _, fn := range quickSubset {
@@ -239,3 +239,52 @@ func TestSweep(t *testing.T) {
 	world.SetExtra("sweep_grid_complete", true)
 }
 
+
+// TestModelUpdateList: the value RETURNED by the per-type UpdateList methods (the merged data set,
+// also used with persist=false to build full write data sets) equals the reference fold, and with
+// persist=true the receiver holds it afterwards.
+func TestModelUpdateList(t *testing.T) {
+	fs := funcs()
+	rapid.Check(t, world.Prop(func(t *rapid.T) {
+		f := fs[rapid.IntRange(0, len(fs)-1).Draw(t, "function")]
+		persist := rapid.Bool().Draw(t, "persist")
+		init := refmodel.Update{Items: listgen.Items(t, &f, 4, gen.Opt{}, "init")}
+		state := refmodel.Fold(&f, nil, init)
+		recv := refmodel.Payload(&f, refmodel.CloneItems(init.Items))
+		shapes := listgen.ShapesFor(&f)
+		var filtered []string
+		for _, s := range shapes {
+			if s != listgen.Full {
+				filtered = append(filtered, s)
+			}
+		}
+		if len(filtered) == 0 {
+			return
+		}
+		u := listgen.Update(t, &f, state, rapid.SampledFrom(filtered).Draw(t, "shape"), gen.Opt{}, "u")
+		want := refmodel.Fold(&f, state, u)
+		fp, fd := listgen.Filters(&f, u)
+		got, ok := recv.(model.Updater).UpdateList(false, persist, refmodel.Payload(&f, u.Items), fp, fd)
+		if !ok {
+			world.Fail(t, fmt.Sprintf("C02/model/update-rejected/%s/%s", sigShape(u.Shape()), f.Fn), "UpdateList reported failure for a well-formed local %s update", u.Shape())
+		}
+		gv := reflect.ValueOf(got)
+		var items []reflect.Value
+		for i := 0; gv.Kind() == reflect.Slice && i < gv.Len(); i++ {
+			items = append(items, gv.Index(i))
+		}
+		if g, w := refmodel.Multiset(items), refmodel.Multiset(want); !reflect.DeepEqual(g, w) {
+			world.Fail(t, fmt.Sprintf("C02/model/returned-data/%s/%s", sigShape(u.Shape()), f.Fn), "UpdateList(persist=%v) returned data that differs from the fold\n update: %s\n got:  %v\n want: %v", persist, world.JSON(listgen.Describe(&f, u)), g, w)
+		}
+		if !refmodel.OrderedByLeadingUintKeys(&f, items) {
+			world.Fail(t, fmt.Sprintf("C02/model/unordered/%s/%s", sigShape(u.Shape()), f.Fn), "returned data not ordered: %v", refmodel.Multiset(items))
+		}
+		if persist {
+			if g, w := refmodel.Multiset(refmodel.ItemsOf(&f, recv)), refmodel.Multiset(want); !reflect.DeepEqual(g, w) {
+				world.Fail(t, fmt.Sprintf("C02/model/not-persisted/%s/%s", sigShape(u.Shape()), f.Fn), "after UpdateList(persist=true) the receiver holds %v, expected %v", g, w)
+			}
+		}
+		changed := !reflect.DeepEqual(refmodel.Multiset(state), refmodel.Multiset(want))
+		world.Record(world.Hash("model", f.Fn, persist, u.Shape(), changed), len(state) > 0 && changed, "model/"+u.Shape())
+	}))
+}
